@@ -93,9 +93,12 @@ def ev_str(e):
     return "C" + h + "/" + ".".join(map(str, e[4]))
 
 
-def status_real(m, evs, crashed, span):
+def status_real(m, evs, crashed, span, keys_from=None):
     p = m.scheduler.progress
-    keys = sorted(fbits(k) for k in m.data_collector.agent_statistics.keys())
+    if keys_from is None:
+        keys = sorted(fbits(k) for k in m.data_collector.agent_statistics.keys())
+    else:      # history mode: the times at which statistics were taken since the run specs were last set
+        keys = sorted({fbits(e[3]) for e in keys_from if e[0] == "C"})
     return (";".join(ev_str(e) for e in evs if e[0] != "entry") +
             f"|progress={fbits(p) if span else '%.9f' % p}|skipped={1 if p < 1.0 else 0}|crashed={1 if crashed else 0}|stuck=0"
             f"|keys={','.join(keys)}|pop={'.'.join(str(a.id) for a in m.agents)}|next={m.next_agent_id}"
@@ -176,6 +179,121 @@ def requests(case, fuel=FUEL):
         for st in case["steps"]:
             req.append(f"step 0 {st[1]}" if st[0] == "model" else f"step {st[1]} {st[2]}")
     return req
+
+
+# ------------------------------------------------------------------ wave 3: histories on ONE model and scheduler
+def seg_case(case, seg):
+    """the run specs in force during a segment, as a case of the fresh-model kind (for spec_check)"""
+    c = {"start": seg["start"], "stop": seg["stop"], "n": seg["n"], "collect": seg["collect"], "k0": case["k0"], "prog": case["prog"],
+         "mode": "run" if seg["kind"] == "run" else "steps"}
+    if seg["kind"] != "run":
+        c["steps"] = seg["steps"]
+        c["history_steps"] = True
+    return c
+
+
+def run_history(case, span):
+    """model.run_specs(...) then run / externally driven steps, segment after segment, on the same model and scheduler.
+    Returns (reply lines per segment, first violation (key, text) against the CURRENT run specs or None, model, steps executed)."""
+    s0 = case["segments"][0]
+    m, _ = new_model({"start": s0["start"], "stop": s0["stop"], "n": s0["n"], "k0": case["k0"], "prog": case["prog"]})
+    lines, first, nsteps = [], None, 0
+    for i, seg in enumerate(case["segments"]):
+        dt = 1 / seg["n"]
+        assert round(1 / dt) == seg["n"]
+        m.run_specs(seg["start"], seg["stop"], dt)
+        mark = len(m._log)
+        crashed = False
+        seg_lines = []
+        if seg["kind"] == "run":
+            try:
+                m.run(collect_data=bool(seg["collect"]))
+            except ZeroDivisionError:
+                crashed = True
+            seg_lines.append(status_real(m, m._log[mark:], crashed, span, m._log[mark:]))
+        else:
+            for st in seg["steps"]:
+                n0 = len(m._log)
+                try:
+                    if st[0] == "model":
+                        m.run_step(st[1], collect_data=bool(seg["collect"]))
+                    else:
+                        m.scheduler.run_step(m, st[1], st[2], None, bool(seg["collect"]))
+                except ZeroDivisionError:
+                    crashed = True
+                seg_lines.append(status_real(m, m._log[n0:], crashed, span, m._log[mark:]))
+        lines.append(seg_lines)
+        nsteps += sum(1 for e in m._log[mark:] if e[0] == "B")
+        v = spec_check(seg_case(case, seg), m._log[mark:], crashed, m, dt)
+        if v and first is None:
+            kind = "run" if seg["kind"] == "run" else "externally driven steps"
+            first = (v[0], f"call #{i + 1} on the same model and scheduler ({kind} after run_specs({seg['start']}, {seg['stop']}, {dt})): {v[1]}")
+        if crashed:
+            break
+    return lines, first, m, nsteps
+
+
+def requests_history(case, fuel):
+    prog = ";".join(f"{k}:{r}:{s}:{a}:{','.join(x for x in acts if x != 'x')}" for k, r, s, a, acts in case["prog"]) or "-"
+    s0 = case["segments"][0]
+    req = [f"prog {prog}", f"new {s0['start']} {s0['stop']} {s0['n']} {s0['collect']} {case['k0']} {fuel} {fbits(1 / s0['n'])}"]
+    for seg in case["segments"]:
+        req.append(f"respec {seg['start']} {seg['stop']} {seg['n']} {seg['collect']} {fuel} {fbits(1 / seg['n'])}")
+        if seg["kind"] == "run":
+            req.append("hrun")
+        else:
+            for st in seg["steps"]:
+                req.append(f"hstep 0 {st[1]}" if st[0] == "model" else f"hstep {st[1]} {st[2]}")
+    return req
+
+
+def gen_history_cases(chk, rng):
+    cases = []
+    def seg(start, stop, n, collect, kind="run", steps=None):
+        d = {"start": start, "stop": stop, "n": n, "collect": collect, "kind": kind}
+        if kind != "run":
+            d["steps"] = steps
+        return d
+    # systematic: dt changed in both directions between two calls, start/stop changed, with and without data collection;
+    # the second call a run or externally driven steps; the first call a run or a single step
+    for (n1, n2) in [(1, 2), (2, 1), (2, 4), (4, 1), (1, 3), (3, 2), (2, 2)]:
+        for c1 in (0, 1):
+            for c2 in (0, 1):
+                for (a2, b2) in [(0, 1), (1, 2), (-1, 0)]:
+                    cases.append({"mode": "history", "k0": 2, "prog": [], "segments": [seg(0, 1, n1, c1), seg(a2, b2, n2, c2)]})
+                cases.append({"mode": "history", "k0": 1, "prog": [["A", 0, 0, 0, ["c"]]], "segments": [
+                    seg(0, 1, n1, c1, "steps", [["sched", 0, 0]]), seg(0, 1, n2, c2)]})
+                cases.append({"mode": "history", "k0": 1, "prog": [], "segments": [
+                    seg(0, 0, n1, c1), seg(0, 1, n2, c2, "steps", [["sched", r, s_] for r in (0, 1) for s_ in range(n2)])]})
+                cases.append({"mode": "history", "k0": 1, "prog": [], "segments": [
+                    seg(0, 0, n1, c1), seg(0, 0, n2, c2, "steps", [["model", s_] for s_ in range(n2)]), seg(1, 1, n1, c1)]})
+    # random histories of 2-4 calls with programs
+    for _ in range(40 if chk.quick else 800):
+        k0 = rng.range(0, 3)
+        segs, pos = [], []
+        for _ in range(rng.range(2, 4)):
+            start = rng.range(-2, 2)
+            stop = start + rng.range(0, 2)
+            n = rng.choice([1, 2, 3, 4, 5, 8])
+            if rng.chance(2, 3):
+                segs.append(seg(start, stop, n, rng.below(2)))
+                pos += [(r, s_) for r in range(start, stop + 1) for s_ in range(n)]
+            else:
+                steps = []
+                for _ in range(rng.range(1, 4)):
+                    steps.append(["model", rng.below(n + 1)] if rng.chance(1, 2) else ["sched", rng.range(start, stop), rng.below(n)])
+                segs.append(seg(start, stop, n, rng.below(2), "steps", steps))
+                pos += [(0, st[1]) if st[0] == "model" else (st[1], st[2]) for st in steps]
+        cases.append({"mode": "history", "k0": k0, "prog": gen_prog(rng, sorted(set(pos)), k0, 25), "segments": segs})
+    return cases
+
+
+def violation_of(case, span):
+    """(key, text) or None for a case of either kind, on the current tree"""
+    if case.get("mode") == "history":
+        return run_history(case, span)[1]
+    _, lg, cr, mm, d = run_real(case, span)
+    return spec_check(case, lg, cr, mm, d)
 
 
 # ------------------------------------------------------------------ reference check (statement of C12)
@@ -284,7 +402,7 @@ def spec_check(case, log, crashed, m, dt):
             return ("callback-order", t)
     keys = set(m.data_collector.agent_statistics.keys())
     want_keys = {b["time"] for b in bl if b["collect"]}
-    if keys != want_keys and not case.get("rerun"):
+    if keys != want_keys and not case.get("rerun") and not case.get("history_steps"):
         return ("collect", f"agent_statistics has times {sorted(keys)}, statistics were taken at {sorted(want_keys)}")
     if whole and case["start"] <= case["stop"] and m.scheduler.progress < 1.0 and not cancelled_early and not case.get("rerun"):
         return (KEY, f"run_specs({case['start']}, {case['stop']}, {dt}): all {len(bl)} steps ran but scheduler.progress "
@@ -303,6 +421,18 @@ def probe():
                                 "final_progress": m.scheduler.progress, "steps": len(blocks_of(log))})
         if not ok:
             facts["progressBySpan"] = False
+    # steps per round follow the run specs in force: run with dt 1, change dt to 0.5 on the same model and scheduler, run again
+    hist = {"mode": "history", "k0": 1, "prog": [], "segments": [
+        {"start": 0, "stop": 0, "n": 1, "collect": 1, "kind": "run"}, {"start": 0, "stop": 0, "n": 2, "collect": 1, "kind": "run"},
+        {"start": 0, "stop": 0, "n": 1, "collect": 1, "kind": "run"}]}
+    try:
+        hl, hv, hm, _ = run_history(hist, True)
+        second = hl[1][0].split("|")[0].count("B/") if len(hl) > 1 else None
+        third = hl[2][0].split("|")[0].count("B/") if len(hl) > 2 else None
+    except Exception as e:
+        second = third = f"raises {type(e).__name__}"
+    facts["stepsFromSpecs"] = (second == 2 and third == 1)
+    facts["history_probe"] = {"steps_of_second_run_dt_0.5": second, "steps_of_third_run_dt_1": third}
     # mid-step iteration semantics on the real scheduler: agent 0 creates agent 2 (acts in this step), agent 2 creates agent 3
     # (nested, acts in this step), deletes agent 0 (the list object is rebound) and creates agent 4 (acts from the next step on)
     case = {"start": 1, "stop": 1, "n": 1, "collect": 1, "k0": 2, "mode": "run",
@@ -320,6 +450,13 @@ def gen_lean(facts):
             "theorem violated : ¬ C12_full cfg := C12_witness_zero cfg (by decide)\n"
             "theorem violated_negative_stop : ¬ C12_full cfg := C12_witness_negative cfg (by decide)\n"
             "#print axioms violated\n#print axioms violated_negative_stop\n#print axioms C12_partial\n")
+    hgood = facts.get("stepsFromSpecs", True)
+    body += f"def hcfg : SchedCfg := {{ stepsFromSpecs := {'true' if hgood else 'false'} }}\n"
+    if good and hgood:
+        body += "theorem history_holds : C12_history cfg hcfg := C12_history_of_good cfg (by decide) hcfg (by decide)\n#print axioms history_holds\n"
+    elif good:
+        body += ("theorem history_violated : ¬ C12_history cfg hcfg := C12_history_witness cfg (by decide) hcfg (by decide)\n"
+                 "#print axioms history_violated\n")
     ms = facts.get("midstep") or {}
     mid = ""
     if ms.get("acted") is not None:
@@ -467,6 +604,23 @@ def shrink_case(case, fails):
                     break
             if changed:
                 break
+        if not changed and case.get("mode") == "history":
+            segs = case["segments"]
+            for i in range(len(segs)):
+                if len(segs) > 1:
+                    cand = dict(case); cand["segments"] = segs[:i] + segs[i + 1:]
+                    if fails(cand):
+                        case, changed = cand, True
+                        break
+                for j in range(len(segs[i].get("steps") or [])):
+                    if len(segs[i]["steps"]) > 1:
+                        sg = dict(segs[i]); sg["steps"] = segs[i]["steps"][:j] + segs[i]["steps"][j + 1:]
+                        cand = dict(case); cand["segments"] = segs[:i] + [sg] + segs[i + 1:]
+                        if fails(cand):
+                            case, changed = cand, True
+                            break
+                if changed:
+                    break
         if not changed and case["k0"] > 0:
             cand = dict(case); cand["k0"] = case["k0"] - 1
             if fails(cand):
@@ -528,6 +682,8 @@ def run(chk):
         "CPython list-iterator semantics (`for agent in model.agents` over the object bound at loop entry; create_agent appends, "
         "delete_agents rebinds) as modelled by LoopSt.aliased; validated by the correspondence on programs that create/delete mid-step",
         "user callbacks are modelled by their effect on the population (create/delete) only; event routing is C11",
+        "scheduler history model (Sched, callOn): what survives between calls is the population (and, in the defective branch probed as "
+        "SchedCfg.stepsFromSpecs = false, a cached steps-per-round); C12_history: every call equals the call on a fresh scheduler",
     ]
     chk.assumptions = ["integer starttime/stoptime (range() requires it), dt = 1/n with round(1/dt) = n ≥ 1",
                        "termination of a step is proved (agentLoop_terminates / run_terminates) under the explicit bound CreateBound N c: every agent creates "
@@ -539,7 +695,9 @@ def run(chk):
                        "IEEE doubles as an instance are trusted (checked on every label of every run: labels_pow2_on_grid)",
                        "total number of steps < 2^53 (done/total < 1.0 in floats iff done < total)"]
     cases, n_exh = gen_cases(chk)
-    chk.cov["rule"] = ("wave 2: + systematic mid-step programs (create / delete of the first, middle, last agent and of the acting agent itself by the "
+    chk.cov["rule"] = ("wave 3: + histories on ONE model and scheduler: run, Model.run_specs with another dt (both directions) / start / stop, run again or "
+                       "externally driven steps, with and without data collection; every call is checked against the specification for the run specs in "
+                       "force and against the model's callOn; wave 2: + systematic mid-step programs (create / delete of the first, middle, last agent and of the acting agent itself by the "
                        "first, middle, last acting agent, in handle_events and act; nested creations to depth 3 with one or two creations each, optionally with a "
                        "deletion inside the chain), runs cancelled through scheduler.running in begin_round / end_round of every grid position (with and without a "
                        "second run), random runs with a cancellation (1/5) and a second run (1/8); every case is driven with the fuel bound of the termination "
@@ -548,11 +706,11 @@ def run(chk):
                        f"{NS}, 0–5 agents, programs creating/deleting agents in begin_round/handle_events/act/end_round) and seeded random "
                        "sequences of externally driven steps (Model.run_step(s) and scheduler.run_step(model,r,s)); a case is the canonical "
                        "JSON of (specs, program, step list); non-trivial = at least one step executed")
-    req = [f"cfg progressBySpan {1 if span else 0}"]
-    real = ["ok"]
-    owner = [None]
+    req = [f"cfg progressBySpan {1 if span else 0}", f"hcfg stepsFromSpecs {1 if facts.get('stepsFromSpecs', True) else 0}"]
+    real = ["ok", "ok"]
+    owner = [None, None]
     label_fail = None
-    soft = [False]            # lines of cancelled runs: compared as evidence, never a finding
+    soft = [False, False]            # lines of cancelled runs: compared as evidence, never a finding
     first_spec = None
     dist = {"run": 0, "steps": 0, "with_program": 0, "stop<=0": 0, "empty_span": 0, "steps_total": 0, "n": {}, "max_fuel_bound": 0,
             "labels_pow2_on_grid": 0, "labels_other_on_grid": 0, "labels_other_off_grid": 0, "nested_creation_steps": 0, "cancelled_runs": 0, "reruns": 0, "midstep_systematic": 0}
@@ -590,6 +748,32 @@ def run(chk):
         v = spec_check(case, log, crashed, m, dt)
         if v and first_spec is None:
             first_spec = (case, v)
+    # ---- wave 3: histories on one model and scheduler (run specs changed between calls)
+    hcases = gen_history_cases(chk, chk.rng.fork("c12-history"))
+    dist["history_cases"] = len(hcases)
+    dist["history_calls"] = 0
+    dist["history_dt_changes"] = 0
+    for hc in hcases:
+        lines, v, m, nsteps = run_history(hc, span)
+        bn, bc = create_bound(hc)
+        fuel = m.next_agent_id + bc * bn
+        rq = requests_history(hc, fuel)
+        flat = ["ok", "ok"]
+        for seg, sl in zip(hc["segments"], lines):
+            flat += ["ok"] + sl
+        # a crash ends the real history early: cut the requests to what was executed
+        rq = rq[:len(flat)]
+        cases.append(hc)
+        req += rq
+        real += flat
+        owner += [len(cases) - 1] * len(rq)
+        soft += [False] * len(rq)
+        dist["history_calls"] += len(hc["segments"])
+        dist["history_dt_changes"] += sum(1 for a, b in zip(hc["segments"], hc["segments"][1:]) if a["n"] != b["n"])
+        dist["steps_total"] += nsteps
+        chk.case(json.dumps(hc, sort_keys=True), nontrivial=nsteps > 0, sample=hc if len(json.dumps(hc)) < 400 else None)
+        if v and first_spec is None:
+            first_spec = (hc, v)
     chk.cov["input_distribution"] = dist
     model = [canon_model(l, span) if "|" in l else l for l in drive("C12", req)]
     chk.cov["traces_validated_against_impl"] = len(cases)
@@ -617,14 +801,12 @@ def run(chk):
         case, (key, _) = first_spec
         def fails(c):
             try:
-                _, lg, cr, mm, d = run_real(c, span)
+                v = violation_of(c, span)
             except Exception:
                 return False
-            v = spec_check(c, lg, cr, mm, d)
             return v is not None and v[0] == key
         small = shrink_case(case, fails)
-        _, lg, cr, mm, d = run_real(small, span)
-        chk.add_finding(key, spec_check(small, lg, cr, mm, d)[1], {"case": small})
+        chk.add_finding(key, violation_of(small, span)[1], {"case": small})
     if bptk_fail is not None and first_spec is None:
         (start, stop, n), obs, want = bptk_fail
         chk.add_finding(KEY if stop <= 0 else "runner-skips-finished-scenario",
@@ -662,6 +844,11 @@ def replay(path):
         print("no concrete input stored:", r)
         return 1
     span = probe()["progressBySpan"]
+    if case.get("mode") == "history":
+        v = violation_of(case, span)
+        print("case:", json.dumps(case))
+        print("violation on the current tree:", v)
+        return 1 if v else 0
     lines, log, crashed, m, dt = run_real(case, span)
     v = spec_check(case, log, crashed, m, dt)
     print("case:", json.dumps(case))
